@@ -405,9 +405,9 @@ impl Engine for SyncEngine {
                     let res = guard(|| {
                         let mut up = Unpacker::new(&m.bytes);
                         let r = match m.kind {
-                            0 => receiver.snap_empty(&mut warns, object_size(cfg), msg::SnapEmpty::decode(&mut pw, &mut up).expect("decode")),
-                            1 => receiver.snap_single(&mut warns, object_size(cfg), msg::SnapSingle::decode(&mut pw, &mut up).expect("decode")),
-                            _ => receiver.snap(&mut warns, object_size(cfg), msg::Snap::decode(&mut pw, &mut up).expect("decode")),
+                            0 => receiver.snap_empty(&mut warns, object_size(cfg), msg::SnapEmpty::decode(&mut pw, &mut up).unwrap_or_else(|e| panic!("TW2SIM-DECODE a message produced by the real encoder failed to decode: {:?}", e))),
+                            1 => receiver.snap_single(&mut warns, object_size(cfg), msg::SnapSingle::decode(&mut pw, &mut up).unwrap_or_else(|e| panic!("TW2SIM-DECODE a message produced by the real encoder failed to decode: {:?}", e))),
+                            _ => receiver.snap(&mut warns, object_size(cfg), msg::Snap::decode(&mut pw, &mut up).unwrap_or_else(|e| panic!("TW2SIM-DECODE a message produced by the real encoder failed to decode: {:?}", e))),
                         };
                         match r {
                             Err(e) => Err(format!("{:?}", e)),
@@ -446,6 +446,7 @@ impl Engine for SyncEngine {
                     ctx.oracle_event = true;
                     let res = match res {
                         Ok(r) => r,
+                        Err(p) if p.msg.starts_with("TW2SIM-DECODE") => return Some(v("valid-message-rejected-by-decoder", &[], format!("message of tick {}: {}", m.tick, p.msg))),
                         Err(p) => return Some(v("panic", &[("side", "receiver"), ("message", &p.msg_class()), ("file", &p.file_class())], format!("receiver panicked on a message of tick {}: {} at {}:{}", m.tick, p.msg, p.file, p.line))),
                     };
                     match res {
